@@ -32,9 +32,10 @@ def classify(ctx, cases_by_id, fails, kind="dist"):
     nviol = 0
     import os
     if os.environ.get("VERIF_DUMP_FAILS"):
-        with open(os.environ["VERIF_DUMP_FAILS"], "w") as fh:
+        with open(os.environ["VERIF_DUMP_FAILS"], "a") as fh:          # one JSON list per judged pass
             json.dump([{"case": {k: v for k, v in cases_by_id[r].items()}, "clause": cl}
                        for r, cl in sorted(fails.items())], fh, default=str)
+            fh.write("\n")
     for rid, clause in sorted(fails.items()):
         c = cases_by_id[rid]
         hit = None
